@@ -422,6 +422,7 @@ def _k(w):
 
 
 def execute(record, ctx):
+    common.probe_knobs(record, ctx)
     Runner(record, ctx).run()
     hits = ctx.stats.get('probe:obstacle_moved', 0) + ctx.stats.get('probe:teleport_fired', 0)
     if hits > 0 and ctx.fired > 0:
